@@ -42,7 +42,7 @@ CLAIMED = {
     "C06": dict(
         engine="libsim",
         technique="deterministic simulation: canonicity invariant evaluated after every step of seeded histories with injected restarts / bridge imports and on streaming mirrors after every scheduled poll",
-        text="Scoped claim: the node table stays reduced, ordered, duplicate-free with constants first, and distinct handles denote distinct functions (hence top/bottom iff valid/unsatisfiable), after every step of histories containing JSON re-imports, node-list rebuilds and bridge imports, for everything built afterwards, and on streaming mirrors after every poll under seeded schedules. Operand functions are sampled. Exploration-level evidence.",
+        text="Scoped claim: the node table stays reduced, ordered, duplicate-free with constants first, and distinct handles denote distinct functions (hence top/bottom iff valid/unsatisfiable), after every step of histories containing JSON re-imports, node-list rebuilds and bridge imports, for everything built afterwards, and on streaming mirrors after every poll under seeded schedules (incl. re-creating every entry on the drained mirror: existing handle, no growth). Operand functions are sampled. Exploration-level evidence.",
         design_ref="DESIGN.md 5.5",
         note="Trusted: table walker and structural checker. The purely sequential part of canonicity over plain operand functions is a pure property and not claimed.",
     ),
